@@ -1,2 +1,440 @@
-(* Heap2 — reserved. *)
+(* Heap2 — router-level histories over the object heap of Heap.v (C03):
+   events (transactions, single-operation helpers, snapshots), the pure
+   mirror of the same events over Tree.v, the canonical renaming of the object
+   graph (for the isomorphism check against the dumped Go object graph), and the
+   case format of harness/cmd/c03. *)
+From Coq Require Import FMapPositive.
 From FoxBase Require Import Bytes.
+From FoxRoute Require Import Node Tree Heap.
+
+(* ---------- events ---------- *)
+Inductive wop :=
+| WHandle (m pat : bytes) (valid : bool) (pslen hostsplit : nat) (rid : N)
+| WUpdate (m pat : bytes) (valid : bool) (pslen hostsplit : nat) (rid : N)
+| WDelete (m pat : bytes) (valid : bool)
+| WTruncate (ms : list bytes).
+
+Inductive ev :=
+| EBegin                 (* fox.Txn(true): tXn with cache = true *)
+| ECommit | EAbort
+| EOp (o : wop)          (* Txn.Handle / Update / Delete / Truncate on the open write transaction *)
+| EDirect (o : wop)      (* Router.Handle / Update / Delete (txnWith(true,false); op; Commit or Abort),
+                            Router.Updates(Truncate) (cache = true) *)
+| ESnapIter              (* Txn.Iter() on the write transaction: tXn.snapshot() *)
+| ESnapClone             (* Txn.Snapshot() on the write transaction: tXn.clone() *)
+| EObsPub.               (* Router.Iter() / Router.Txn(false) [.Iter() / .Snapshot()]: the published roots *)
+
+Inductive wout := WOk | WExist | WNotFound | WConflict (pats : list bytes) | WInvalid | WPanic | WOof | WNoTxn.
+
+Record pubt := { p_root : addr; p_size : Z; p_maxp : nat; p_depth : nat }.
+
+Record world := { w_st : st;              (* heap + fields of the open write tXn (stale when none is open) *)
+                  w_pub : pubt;           (* the published iTree *)
+                  w_open : bool;
+                  w_handed : list addr }. (* roots arrays handed out to readers so far, oldest first *)
+
+Definition valid_method_handle (m : bytes) : bool :=
+  negb (is_nil m) && forallb (fun c => Nat.leb 65 (nat_of_ascii c) && Nat.leb (nat_of_ascii c) 90) m.
+
+Definition mk_ri (pat : bytes) (rid : N) (psl hs : nat) : rinfo :=
+  {| ri_route := {| rpat := pat; rid := rid |}; ri_pslen := psl; ri_hostsplit := hs |}.
+
+Section Run.
+Variable evict : N -> list addr -> list addr.
+Variable fuel : nat.            (* depth bound for the route listings (countRoutes, getRouteConflict) *)
+Variable reset_on_snapshot : bool.   (* true = the code as it is; false = variant WITHOUT `t.writable = nil` in snapshot() *)
+
+Definition run_op (o : wop) : M (wout * option N) :=
+  match o with
+  | WHandle m pat valid psl hs rid =>
+      if negb (valid_method_handle m) || negb valid then ret (WInvalid, None)
+      else out <- h_insert evict m (mk_ri pat rid psl hs) ;;
+           match out with
+           | IOk => ret (WOk, None)
+           | IExist _ => ret (WExist, None)
+           | IConflict a => rts <- h_routes fuel a ;; ret (WConflict (map rpat rts), None)
+           end
+  | WUpdate m pat valid psl hs rid =>
+      if is_nil m || negb valid then ret (WInvalid, None)
+      else b <- h_update evict m (mk_ri pat rid psl hs) ;; ret (if b then WOk else WNotFound, None)
+  | WDelete m pat valid =>
+      if is_nil m || negb valid then ret (WInvalid, None)
+      else r <- h_remove evict m pat ;;
+           match r with Some rt => ret (WOk, Some (rid rt)) | None => ret (WNotFound, None) end
+  | WTruncate ms => h_truncate fuel ms ;;; ret (WOk, None)
+  end.
+
+(* iTree.txn(cache) *)
+Definition begin_st (s : st) (p : pubt) (cache : bool) : st :=
+  mkst (s_nodes s) (s_arrs s) (s_next s) (p_root p) (p_size p) (p_maxp p) (p_depth p) cache [] (s_clock s).
+(* tXn.commit() *)
+Definition pub_of (s : st) : pubt := {| p_root := s_root s; p_size := s_size s; p_maxp := s_maxp s; p_depth := s_depth s |}.
+Definition reset_wr (s : st) : st := set_wr s [] (s_clock s).
+
+Definition direct_cache (o : wop) : bool := match o with WTruncate _ => true | _ => false end.
+
+Definition step (w : world) (e : ev) : world * wout * option N :=
+  match e with
+  | EBegin =>
+      if w_open w then (w, WNoTxn, None)
+      else ({| w_st := begin_st (w_st w) (w_pub w) true; w_pub := w_pub w; w_open := true; w_handed := w_handed w |}, WOk, None)
+  | ECommit =>
+      if w_open w
+      then ({| w_st := reset_wr (w_st w); w_pub := pub_of (w_st w); w_open := false; w_handed := w_handed w |}, WOk, None)
+      else (w, WOk, None)
+  | EAbort => ({| w_st := w_st w; w_pub := w_pub w; w_open := false; w_handed := w_handed w |}, WOk, None)
+  | EOp o =>
+      if w_open w then
+        match run_op o (w_st w) with
+        | Ok ((out, rm), s') => ({| w_st := s'; w_pub := w_pub w; w_open := true; w_handed := w_handed w |}, out, rm)
+        | Panic => (w, WPanic, None)
+        | Oof => (w, WOof, None)
+        end
+      else (w, WNoTxn, None)
+  | EDirect o =>
+      if w_open w then (w, WNoTxn, None)
+      else
+        match run_op o (begin_st (w_st w) (w_pub w) (direct_cache o)) with
+        | Ok ((out, rm), s') =>
+            match out with
+            | WOk => ({| w_st := reset_wr s'; w_pub := pub_of s'; w_open := false; w_handed := w_handed w |}, out, rm)
+            | _ => ({| w_st := s'; w_pub := w_pub w; w_open := false; w_handed := w_handed w |}, out, rm)
+            end
+        | Panic => (w, WPanic, None)
+        | Oof => (w, WOof, None)
+        end
+  | ESnapIter | ESnapClone =>
+      if w_open w then
+        ({| w_st := if reset_on_snapshot then reset_wr (w_st w) else w_st w; w_pub := w_pub w; w_open := true;
+            w_handed := w_handed w ++ [s_root (w_st w)] |}, WOk, None)
+      else (w, WNoTxn, None)
+  | EObsPub =>
+      ({| w_st := w_st w; w_pub := w_pub w; w_open := w_open w; w_handed := w_handed w ++ [p_root (w_pub w)] |}, WOk, None)
+  end.
+
+Fixpoint run (w : world) (es : list ev) : world :=
+  match es with
+  | [] => w
+  | e :: r => run (fst (fst (step w e))) r
+  end.
+
+End Run.
+
+(* Router.newTree (fox.go): four empty method roots *)
+Definition init_st : st :=
+  let s0 := mkst (PM.empty _) (PM.empty _) 1%positive 1%positive 0%Z 0 0 false [] 0%N in
+  match (l <- new_empty_roots common_verbs ;; nr <- alloc_arr l ;; set_root nr) s0 with
+  | Ok (_, s) => s
+  | _ => s0
+  end.
+Definition init_world : world :=
+  {| w_st := init_st; w_pub := pub_of init_st; w_open := false; w_handed := [] |}.
+
+(* ---------- the same events on pure trees (Tree.v) ---------- *)
+Record pworld := { q_pub : txn; q_cur : option txn }.
+
+Definition pure_op (t : txn) (o : wop) : txn * wout * option N :=
+  match o with
+  | WHandle m pat valid psl hs rid =>
+      if negb (valid_method_handle m) || negb valid then (t, WInvalid, None)
+      else match insert t m (mk_ri pat rid psl hs) with
+           | ROk t' => (t', WOk, None)
+           | RExist _ => (t, WExist, None)
+           | RConflict ps => (t, WConflict ps, None)
+           | RNotFound => (t, WPanic, None)
+           end
+  | WUpdate m pat valid psl hs rid =>
+      if is_nil m || negb valid then (t, WInvalid, None)
+      else match update t m (mk_ri pat rid psl hs) with
+           | ROk t' => (t', WOk, None)
+           | _ => (t, WNotFound, None)
+           end
+  | WDelete m pat valid =>
+      if is_nil m || negb valid then (t, WInvalid, None)
+      else match remove t m pat with
+           | DOk t' r => (t', WOk, Some (rid r))
+           | DNotFound => (t, WNotFound, None)
+           end
+  | WTruncate ms => (truncate t ms, WOk, None)
+  end.
+
+Definition is_wok (o : wout) : bool := match o with WOk => true | _ => false end.
+
+Definition pstep (q : pworld) (e : ev) : pworld * wout * option N :=
+  match e with
+  | EBegin => match q_cur q with Some _ => (q, WNoTxn, None) | None => ({| q_pub := q_pub q; q_cur := Some (q_pub q) |}, WOk, None) end
+  | ECommit => (match q_cur q with Some t => {| q_pub := t; q_cur := None |} | None => q end, WOk, None)
+  | EAbort => ({| q_pub := q_pub q; q_cur := None |}, WOk, None)
+  | EOp o => match q_cur q with
+             | Some t => let '(t', out, rm) := pure_op t o in ({| q_pub := q_pub q; q_cur := Some t' |}, out, rm)
+             | None => (q, WNoTxn, None)
+             end
+  | EDirect o => match q_cur q with
+                 | Some _ => (q, WNoTxn, None)
+                 | None => let '(t', out, rm) := pure_op (q_pub q) o in
+                           ({| q_pub := if is_wok out then t' else q_pub q; q_cur := None |}, out, rm)
+                 end
+  | ESnapIter | ESnapClone => (q, match q_cur q with Some _ => WOk | None => WNoTxn end, None)
+  | EObsPub => (q, WOk, None)
+  end.
+
+Fixpoint prun (q : pworld) (es : list ev) : pworld :=
+  match es with [] => q | e :: r => prun (fst (fst (pstep q e))) r end.
+
+Definition init_pworld : pworld := {| q_pub := empty_txn; q_cur := None |}.
+
+(* the snapshot-taking events, and a history with them erased *)
+Definition is_snap (e : ev) : bool := match e with ESnapIter | ESnapClone | EObsPub => true | _ => false end.
+Definition strip_snaps (es : list ev) : list ev := filter (fun e => negb (is_snap e)) es.
+
+(* abs of a transaction state: the pure txn record read out of the heap *)
+Definition abs_txn (fuel : nat) (s : st) (root : addr) (size : Z) (maxp depth : nat) : option txn :=
+  match abs fuel s root with
+  | Some rs => Some {| t_roots := rs; t_size := size; t_maxparams := maxp; t_depth := depth |}
+  | None => None
+  end.
+Definition abs_pub (fuel : nat) (w : world) : option txn :=
+  abs_txn fuel (w_st w) (p_root (w_pub w)) (p_size (w_pub w)) (p_maxp (w_pub w)) (p_depth (w_pub w)).
+Definition abs_cur (fuel : nat) (w : world) : option txn :=
+  abs_txn fuel (w_st w) (s_root (w_st w)) (s_size (w_st w)) (s_maxp (w_st w)) (s_depth (w_st w)).
+
+(* ---------- canonical renaming of the object graph ----------
+   Depth-first from a list of roots arrays; node ids and array ids are assigned
+   in first-visit order (1, 2, ...), separately; empty arrays have id 0 (Go: no
+   identity).  A node record is emitted when the node is finished (post-order).
+   harness/cmd/c03 performs the same traversal on the addresses of VerifDump. *)
+Record gnode := { g_id : N; g_key : bytes; g_rt : option (bytes * N); g_arr : N; g_kids : list N }.
+Record graph := { gr_roots : list (N * list N); gr_nodes : list gnode }.
+
+Record gstate := { gs_n : PM.t N; gs_a : PM.t N; gs_nc : N; gs_ac : N; gs_out : list gnode }.
+
+Definition arr_id (a : addr) (content : list addr) (g : gstate) : N * gstate :=
+  match content with
+  | [] => (0%N, g)
+  | _ => match PM.find a (gs_a g) with
+         | Some i => (i, g)
+         | None => let i := N.succ (gs_ac g) in
+                   (i, {| gs_n := gs_n g; gs_a := PM.add a i (gs_a g); gs_nc := gs_nc g; gs_ac := i; gs_out := gs_out g |})
+         end
+  end.
+
+Fixpoint visit (fuel : nat) (s : st) (a : addr) (g : gstate) : option (N * gstate) :=
+  match fuel with O => None | S f =>
+    match PM.find a (gs_n g) with
+    | Some id => Some (id, g)
+    | None =>
+      match find_node s a with
+      | None => None
+      | Some o =>
+        match find_arr s (n_arr o) with
+        | None => None
+        | Some ch =>
+          let id := N.succ (gs_nc g) in
+          let g1 := {| gs_n := PM.add a id (gs_n g); gs_a := gs_a g; gs_nc := id; gs_ac := gs_ac g; gs_out := gs_out g |} in
+          let '(aid, g2) := arr_id (n_arr o) ch g1 in
+          match (fix go (l : list addr) (g : gstate) : option (list N * gstate) :=
+                   match l with
+                   | [] => Some ([], g)
+                   | x :: t => match visit f s x g with
+                               | Some (i, g') => match go t g' with Some (is, g'') => Some (i :: is, g'') | None => None end
+                               | None => None
+                               end
+                   end) ch g2 with
+          | Some (kids, g3) =>
+              Some (id, {| gs_n := gs_n g3; gs_a := gs_a g3; gs_nc := gs_nc g3; gs_ac := gs_ac g3;
+                           gs_out := {| g_id := id; g_key := n_key o;
+                                        g_rt := match n_route o with Some r => Some (rpat r, rid r) | None => None end;
+                                        g_arr := aid; g_kids := kids |} :: gs_out g3 |})
+          | None => None
+          end
+        end
+      end
+    end
+  end.
+
+Fixpoint visit_list (fuel : nat) (s : st) (l : list addr) (g : gstate) : option (list N * gstate) :=
+  match l with
+  | [] => Some ([], g)
+  | x :: t => match visit fuel s x g with
+              | Some (i, g') => match visit_list fuel s t g' with Some (is, g'') => Some (i :: is, g'') | None => None end
+              | None => None
+              end
+  end.
+
+Fixpoint visit_roots (fuel : nat) (s : st) (ras : list addr) (g : gstate) : option (list (N * list N) * gstate) :=
+  match ras with
+  | [] => Some ([], g)
+  | ra :: t =>
+    match find_arr s ra with
+    | None => None
+    | Some l =>
+      let '(aid, g1) := arr_id ra l g in
+      match visit_list fuel s l g1 with
+      | Some (ids, g2) => match visit_roots fuel s t g2 with Some (more, g3) => Some ((aid, ids) :: more, g3) | None => None end
+      | None => None
+      end
+    end
+  end.
+
+Definition canon (fuel : nat) (s : st) (ras : list addr) : option graph :=
+  match visit_roots fuel s ras {| gs_n := PM.empty _; gs_a := PM.empty _; gs_nc := 0; gs_ac := 0; gs_out := [] |} with
+  | Some (rs, g) => Some {| gr_roots := rs; gr_nodes := rev (gs_out g) |}
+  | None => None
+  end.
+
+(* roots observed by the harness after a step: every snapshot so far, the published tree, the open transaction *)
+Definition observed_roots (w : world) : list addr :=
+  w_handed w ++ [p_root (w_pub w)] ++ (if w_open w then [s_root (w_st w)] else []).
+
+(* ---------- case format (harness/cmd/c03) ---------- *)
+Record c3step := {
+  c_ev : ev;
+  c_out : wout; c_removed : option N;          (* what the implementation answered *)
+  c_meta : option (Z * nat * nat);             (* size / maxParams / depth of the state visible to the caller (None = not read) *)
+  c_graph : option graph;                      (* canonical object graph of observed_roots (None = not dumped at this step) *)
+  c_ghash : option N;                          (* or only a 64-bit hash of that graph (long streams over big trees) *)
+  c_nh : nat;                                  (* number of snapshots held after this step *)
+  c_nf : N;                                    (* number of node ids reachable from those snapshots *)
+  c_frozen : list (N * N) }.                   (* per snapshot: digest of its full observation when taken, and now *)
+
+Record c3case := { k_cap : N; k_steps : list c3step }.
+
+(* compact constructors used by the generated case files (numerals are N there) *)
+Definition mkG (id : N) (k : bytes) (rt : option (bytes * N)) (arr : N) (kids : list N) : gnode :=
+  {| g_id := id; g_key := k; g_rt := rt; g_arr := arr; g_kids := kids |}.
+Definition mkGr (rs : list (N * list N)) (ns : list gnode) : graph := {| gr_roots := rs; gr_nodes := ns |}.
+Definition mkH (m p : bytes) (v : bool) (psl hs id : N) : wop := WHandle m p v (N.to_nat psl) (N.to_nat hs) id.
+Definition mkU (m p : bytes) (v : bool) (psl hs id : N) : wop := WUpdate m p v (N.to_nat psl) (N.to_nat hs) id.
+Definition mkS (e : ev) (out : wout) (rm : option N) (meta : option (Z * N * N)) (g : option graph) (gh : option N)
+               (nh nf : N) (fr : list (N * N)) : c3step :=
+  {| c_ev := e; c_out := out; c_removed := rm;
+     c_meta := match meta with Some (sz, mp, d) => Some (sz, N.to_nat mp, N.to_nat d) | None => None end;
+     c_graph := g; c_ghash := gh; c_nh := N.to_nat nh; c_nf := nf; c_frozen := fr |}.
+
+(* steps of the eviction streams: GET /a/b[/c] with a, b indexes into an alphabet, inside the open
+   transaction; k = 0 Handle, 1 Update, 2 Delete; o = 0 ok, 1 exists, 2 not found; rm = id of the
+   removed route (0 = none).  Nothing else is observed at such a step. *)
+Definition fan_pat (alpha : bytes) (a b c : N) : bytes :=
+  let ch (i : N) := nth (N.to_nat i) alpha "?"%char in
+  "/"%char :: ch a :: "/"%char :: ch b :: (if N.eqb c 0 then [] else ["/"%char; ascii_of_N c]).
+Definition mkFan (alpha : bytes) (k a b c id o rm : N) : c3step :=
+  let m := m_get in
+  let p := fan_pat alpha a b c in
+  {| c_ev := EOp (if N.eqb k 0 then mkH m p true 0 0 id else if N.eqb k 1 then mkU m p true 0 0 id else WDelete m p true);
+     c_out := if N.eqb o 0 then WOk else if N.eqb o 1 then WExist else WNotFound;
+     c_removed := if N.eqb rm 0 then None else Some rm;
+     c_meta := None; c_graph := None; c_ghash := None; c_nh := 0; c_nf := 0; c_frozen := [] |}.
+
+(* 61-bit multiplicative hash (h*33 xor x) of a canonical graph (the same arithmetic in harness/cmd/c03) *)
+Definition hmix (h x : N) : N := N.land (N.lxor (N.add (N.shiftl h 5) h) x) 2305843009213693951.
+Definition hbytes (h : N) (b : bytes) : N := fold_left (fun h c => hmix h (N_of_ascii c)) b (hmix h (N.of_nat (List.length b))).
+Definition hlist (h : N) (l : list N) : N := fold_left hmix l (hmix h (N.of_nat (List.length l))).
+Definition hnode (h : N) (n : gnode) : N :=
+  let h := hmix h (g_id n) in
+  let h := hbytes h (g_key n) in
+  let h := match g_rt n with Some (p, i) => hmix (hbytes (hmix h 1) p) i | None => hmix h 0 end in
+  hlist (hmix h (g_arr n)) (g_kids n).
+Definition ghash (g : graph) : N :=
+  let h := fold_left (fun h r => hlist (hmix h (fst r)) (snd r)) (gr_roots g) 14695981039346656037%N in
+  fold_left hnode (gr_nodes g) h.
+
+Definition dfs_fuel : nat := 200.
+
+Definition wout_eqb (a b : wout) : bool :=
+  match a, b with
+  | WOk, WOk | WExist, WExist | WNotFound, WNotFound | WInvalid, WInvalid | WPanic, WPanic | WOof, WOof | WNoTxn, WNoTxn => true
+  | WConflict x, WConflict y => list_eqb bytes_eqb x y
+  | _, _ => false
+  end.
+
+Definition rt_eqb (a b : bytes * N) : bool := bytes_eqb (fst a) (fst b) && N.eqb (snd a) (snd b).
+Definition gnode_eqb (a b : gnode) : bool :=
+  N.eqb (g_id a) (g_id b) && bytes_eqb (g_key a) (g_key b) && opt_eqb rt_eqb (g_rt a) (g_rt b) &&
+  N.eqb (g_arr a) (g_arr b) && list_eqb N.eqb (g_kids a) (g_kids b).
+Definition groot_eqb (a b : N * list N) : bool := N.eqb (fst a) (fst b) && list_eqb N.eqb (snd a) (snd b).
+Definition graph_eqb (a b : graph) : bool :=
+  list_eqb groot_eqb (gr_roots a) (gr_roots b) && list_eqb gnode_eqb (gr_nodes a) (gr_nodes b).
+
+Definition visible_meta (w : world) : Z * nat * nat :=
+  if w_open w then (s_size (w_st w), s_maxp (w_st w), s_depth (w_st w))
+  else (p_size (w_pub w), p_maxp (w_pub w), p_depth (w_pub w)).
+
+(* 0 = agrees; otherwise which comparison failed first (1 outcome, 2 removed, 3 meta, 4 graph, 5 model panic / oof) *)
+Definition step_agrees (w' : world) (out : wout) (rm : option N) (c : c3step) : bool :=
+  wout_eqb out (c_out c) && opt_eqb N.eqb rm (c_removed c) &&
+  match c_meta c with
+  | Some (sz', mp', d') => let '(sz, mp, d) := visible_meta w' in Z.eqb sz sz' && Nat.eqb mp mp' && Nat.eqb d d'
+  | None => true
+  end &&
+  match c_graph c, c_ghash c with
+  | None, None => true
+  | og, oh =>
+      match canon dfs_fuel (w_st w') (observed_roots w') with
+      | Some g' => match og with Some g => graph_eqb g' g | None => true end &&
+                   match oh with Some h => N.eqb (ghash g') h | None => true end
+      | None => false
+      end
+  end.
+
+Fixpoint run_agrees (ev : N -> list addr -> list addr) (w : world) (cs : list c3step) : bool :=
+  match cs with
+  | [] => true
+  | c :: r => let '(w', out, rm) := step ev dfs_fuel true w (c_ev c) in
+              step_agrees w' out rm c && run_agrees ev w' r
+  end.
+
+Definition c3_model_agrees (c : c3case) : bool := run_agrees (lru_evict (N.to_nat (k_cap c))) init_world (k_steps c).
+
+Fixpoint run_oof (ev : N -> list addr -> list addr) (w : world) (cs : list c3step) : bool :=
+  match cs with
+  | [] => false
+  | c :: r => let '(w', out, _) := step ev dfs_fuel true w (c_ev c) in
+              match out with WOof => true | _ => run_oof ev w' r end
+  end.
+Definition c3_oof (c : c3case) : bool := run_oof (lru_evict (N.to_nat (k_cap c))) init_world (k_steps c).
+
+(* ---------- specification on the observations alone (no model) ----------
+   (a) every snapshot shows now what it showed when it was taken (digest of All / Has / Route /
+       Reverse / Lookup-with-params over the probe set);
+   (b) the objects reachable from the snapshots held after step k are, at step k+1, the same
+       objects with the same contents (ids <= c_nf of step k: first-visit order visits the
+       snapshots first, so an unchanged sub-graph keeps its ids). *)
+Definition digests_ok (c : c3step) : bool := forallb (fun p => N.eqb (fst p) (snd p)) (c_frozen c).
+
+Definition frozen_part (nh : nat) (nf : N) (g : graph) : list (N * list N) * list gnode :=
+  (firstn nh (gr_roots g), filter (fun n => N.leb (g_id n) nf) (gr_nodes g)).
+
+Definition frozen_pair_ok (a b : c3step) : bool :=
+  match c_graph a, c_graph b with
+  | Some ga, Some gb =>
+      let '(ra, na) := frozen_part (c_nh a) (c_nf a) ga in
+      let '(rb, nb) := frozen_part (c_nh a) (c_nf a) gb in
+      list_eqb groot_eqb ra rb && list_eqb gnode_eqb na nb
+  | _, _ => true
+  end.
+
+Fixpoint frozen_struct_ok (cs : list c3step) : bool :=
+  match cs with
+  | a :: (b :: _) as r => frozen_pair_ok a b && frozen_struct_ok r
+  | _ => true
+  end.
+
+Definition c3_spec_ok (c : c3case) : bool := forallb digests_ok (k_steps c) && frozen_struct_ok (k_steps c).
+
+(* one model run per case: 0 = agrees, 1 = implementation <> model, 2 = model out of fuel *)
+Fixpoint run_code (ev : N -> list addr -> list addr) (w : world) (cs : list c3step) : N :=
+  match cs with
+  | [] => 0
+  | c :: r => let '(w', out, rm) := step ev dfs_fuel true w (c_ev c) in
+              match out with
+              | WOof => 2
+              | _ => if step_agrees w' out rm c then run_code ev w' r else 1
+              end
+  end.
+Definition c3_code (c : c3case) : N := run_code (lru_evict (N.to_nat (k_cap c))) init_world (k_steps c).
+Definition c3_codes (cs : list c3case) : list N := map c3_code cs.
+Definition codes_eq (k : N) (codes : list N) : list nat := true_idx (map (N.eqb k) codes).
+
+Definition c3_mismatches (cs : list c3case) : list nat := true_idx (map (fun c => negb (c3_model_agrees c)) cs).
+Definition c3_violations (cs : list c3case) : list nat := true_idx (map (fun c => negb (c3_spec_ok c)) cs).
+Definition c3_oofs (cs : list c3case) : list nat := true_idx (map c3_oof cs).
